@@ -196,7 +196,8 @@ def validate_evidence(ev):
 # (one execution under vmc.sched, one call of a function compiled with maxprocs>1) therefore runs under a machine-wide token.
 # Only speed is affected: the token is advisory and re-entrant per process.
 
-_FORK = {'fd': None, 'depth': 0, 'pid': None}
+_FORK = {'fds': None, 'depth': 0, 'pid': None}
+FORK_SLOTS = int(os.environ.get('VERIF_FORK_SLOTS') or 2)
 
 
 @contextlib.contextmanager
@@ -204,27 +205,37 @@ def fork_token():
     import fcntl
     if _FORK['pid'] != os.getpid():   # first use in this process (or in a forked child: own depth, shared description is harmless)
         _FORK.update(pid=os.getpid(), depth=0)
-        if _FORK['fd'] is None:
+        if _FORK['fds'] is None:
             d = os.path.join(os.path.dirname(os.path.dirname(os.path.abspath(__file__))), '.locks')
             try:
                 os.makedirs(d, exist_ok=True)
-                _FORK['fd'] = os.open(os.path.join(d, 'fork.lock'), os.O_CREAT | os.O_RDWR, 0o666)
+                _FORK['fds'] = [os.open(os.path.join(d, 'fork{}.lock'.format(k)), os.O_CREAT | os.O_RDWR, 0o666) for k in range(FORK_SLOTS)]
             except OSError:
-                _FORK['fd'] = -1
-    if _FORK['fd'] == -1 or _FORK['depth'] > 0:
+                _FORK['fds'] = []
+    if not _FORK['fds'] or _FORK['depth'] > 0:
         _FORK['depth'] += 1
         try:
             yield
         finally:
             _FORK['depth'] -= 1
         return
-    fcntl.flock(_FORK['fd'], fcntl.LOCK_EX)
+    held = None
+    for fd in _FORK['fds']:   # a free slot if there is one, else wait for "our" slot
+        try:
+            fcntl.flock(fd, fcntl.LOCK_EX | fcntl.LOCK_NB)
+            held = fd
+            break
+        except OSError:
+            pass
+    if held is None:
+        held = _FORK['fds'][os.getpid() % len(_FORK['fds'])]
+        fcntl.flock(held, fcntl.LOCK_EX)
     _FORK['depth'] = 1
     try:
         yield
     finally:
         _FORK['depth'] = 0
         try:
-            fcntl.flock(_FORK['fd'], fcntl.LOCK_UN)
+            fcntl.flock(held, fcntl.LOCK_UN)
         except OSError:
             pass
